@@ -27,6 +27,7 @@ class BundleGen:
         self.inputs: list[dict] = []
         self.sig_types: dict[str, str] = {}      # scalar signal name -> type
         self.bundles: dict[str, set] = {}        # bundle name -> static member types
+        self.member_vals: dict[str, list] = {}   # bundle name -> some current member values
         self.n = 0
         self.thresholds: set[int] = set()
 
@@ -51,6 +52,7 @@ class BundleGen:
     def const(self, lo=-20, hi=20):
         v = self.ch.i32_biased(lo, hi)
         self.thresholds.add(v)
+        self.thresholds.add(-v)      # valuations where a member cancels against the constant
         return ["lit", v, 10]
 
     def literal(self):
@@ -109,6 +111,14 @@ class BundleGen:
             nm = self.fresh("b")
             self.stmts.append(["decl", "Bundle", nm, e])
             self.bundles[nm] = t
+            vals = []
+            inits = {i["name"]: i["init"] for i in self.inputs}
+            for x in e[1]:
+                if x[0] == "siglit" and x[2][0] == "lit":
+                    vals.append(x[2][1])
+                elif x[0] == "var" and x[1] in inits:
+                    vals.append(inits[x[1]])
+            self.member_vals[nm] = vals
             return
         bn = ch.pick(sorted(self.bundles))
         bt = self.bundles[bn]
@@ -122,8 +132,18 @@ class BundleGen:
                 s = ["lit", ch.rint(0, 3), 10]
             else:
                 s, _nm = self.scalar()
+            mv = [v for v in self.member_vals.get(bn, []) if -1000 <= v <= 1000 and v]
+            if op in ("+", "-") and mv and ch.chance(1, 2):
+                # a constant that cancels one member: the member drops out of the result
+                v = ch.pick(mv)
+                s = ["lit", -v if op == "+" else v, 10]
+            e = ["bin", op, ["var", bn], s]
+            # inline chains of each-arithmetic (no named intermediate)
+            while ch.chance(1, 3):
+                op2 = op if ch.chance(3, 4) else ch.pick(["+", "-", "*"])
+                e = ["bin", op2, e, self.const(-9, 9)]
             nm = self.fresh("b")
-            self.stmts.append(["decl", "Bundle", nm, ["bin", op, ["var", bn], s]])
+            self.stmts.append(["decl", "Bundle", nm, e])
             self.bundles[nm] = set(bt)
         elif k == "filter":
             s, _nm = self.scalar()
